@@ -91,7 +91,8 @@ struct Model
     for (const auto & c : p.V) vm = std::max(vm, maxabs<LD>(MatL(c)));
     // control increments below 1e-6 count as 1e-6: an increment obtained as log(ga^-1 gb) carries the absolute rounding
     // error 1e-16 of the product, i.e. 2e-9 relative for an increment of 5e-9
-    vm       = std::max<LD>(vm, 1e-6L);
+    // (times the size of the poses: 1e-16 |translation| for SE(n))
+    vm       = std::max<LD>(vm, 1e-6L * std::max<LD>(1, maxabs<LD>(p.P)));
     v.vscale = K * vm * (p.Del / T);
     v.ascale = K * std::max(1, K - 1) * vm * (1 + vm) * (p.Del / T) * (p.Del / T);
     return v;
@@ -304,7 +305,12 @@ void compare(const char * when, const Spline<K, G> & s, const Model<K, G> & m, v
     if (out) {
       ctx.require(w + ": zero derivatives outside [0,t_max]", vel.isZero(0) && acc.isZero(0));
     } else {
-      ctx.le(w + ": velocity", static_cast<double>(maxabs<LD>(MatL(vel.template cast<LD>() - r.vel))) / sv, 1e-9);
+      if (!ctx.le(w + ": velocity", static_cast<double>(maxabs<LD>(MatL(vel.template cast<LD>() - r.vel))) / sv, 1e-9) && ctx.failures.size() < 4) {
+        std::ostringstream d;
+        d.precision(17);
+        d << "t=" << tt << " piece=" << m.find(tt) << "/" << np << " vel=" << show(vel) << " ref=" << show(r.vel) << " scale=" << sv;
+        ctx.fail("velocity detail", d.str(), "");
+      }
       ctx.le(w + ": acceleration", static_cast<double>(maxabs<LD>(MatL(acc.template cast<LD>() - r.acc))) / sa, 1e-8);
     }
     // value-only evaluation agrees
